@@ -59,8 +59,15 @@ def _run_one(fn_path, inst):
         f = getattr(importlib.import_module(mod), fn)
         r = f(inst)
         r.setdefault("instance", inst)
-    except Exception as ex:  # harness error inside an instance
-        r = {"instance": inst, "harness_error": f"{type(ex).__name__}: {ex}", "trace": traceback.format_exc()[-3000:]}
+    except Exception as ex:
+        msg = f"{type(ex).__name__}: {ex}"
+        if isinstance(ex, (AttributeError, ImportError)) and ("jaxley" in str(ex) or "type object" in str(ex)):
+            # an anchored (often private) function or attribute of /repo no longer exists under that name, e.g. after a
+            # refactoring: the instance cannot be encoded.  That is inconclusive, not an alarm and not a harness fault.
+            r = {"instance": inst, "violations": [], "counters": {"anchor_missing": 1}, "stats": {},
+                 "inconclusive": [{"instance": inst, "query": "anchor", "reason": f"anchored name not found in the analysed tree: {msg}"[:240]}]}
+        else:  # harness error inside an instance
+            r = {"instance": inst, "harness_error": msg, "trace": traceback.format_exc()[-3000:]}
     r["wall_s"] = round(time.time() - t0, 3)
     return r
 
